@@ -197,9 +197,24 @@ def extra(env, tier, seed):
             want = t.wid(c) | (4 if t.isbell(c) else 0) | (8 if t.iscomb(c) else 0)
             if v != want and len(viol) < 3:
                 viol.append({"case": {"kind": "cp", "cp": c}})
+    # the width the LAYOUT gives every code point (ren_cwid: tab, placeholder table, bell placeholder, width class), which is what
+    # the tiling is built from; a shortcut in front of the table look-ups must not change it for any code point
+    n2 = 0
+    for lo in range(0, 0x110000, step):
+        base = max(lo, 1)
+        out = p.call_raw("cwid %d %d" % (base, lo + step))
+        for k, ch in enumerate(out):
+            c = base + k
+            if ch == "x" or c == 10:
+                continue
+            n2 += 1
+            if int(ch) != t.cwid(c, 0) and len(viol) < 6:
+                viol.append({"case": {"kind": "cwid", "cp": c}})
     p.close()
-    return [{"name": "width_class_of_every_code_point", "exhaustive": True, "evaluations": n, "distinct_nontrivial": n,
-             "samples": ["U+0009", "U+0301", "U+65E5", "U+200C", "U+1F600"], "violations": viol}]
+    return [{"name": "layout_cell_width_of_every_code_point", "exhaustive": True, "evaluations": n2, "distinct_nontrivial": n2,
+             "samples": ["U+0009", "U+1100", "U+200C", "U+064E", "U+20001"], "violations": [v for v in viol if v["case"].get("kind") == "cwid"]},
+            {"name": "width_class_of_every_code_point", "exhaustive": True, "evaluations": n, "distinct_nontrivial": n,
+             "samples": ["U+0009", "U+0301", "U+65E5", "U+200C", "U+1F600"], "violations": [v for v in viol if v["case"].get("kind") != "cwid"]}]
 
 
 def run_vicase(env, c):
@@ -254,6 +269,12 @@ def run_case(env, c):  # noqa: F811
         v = ord(ch[0]) - 65
         want = t.wid(c["cp"]) | (4 if t.isbell(c["cp"]) else 0) | (8 if t.iscomb(c["cp"]) else 0)
         return Outcome(v == want, True, ["cp"], detail={"why": "U+%04X: wid|bell<<2|comb<<3 = %d, tables say %d" % (c["cp"], v, want)})
+    if c.get("kind") == "cwid":
+        p = probe.get(env)
+        t = tables(env)
+        ch = p.call_raw("cwid %d %d" % (c["cp"], c["cp"] + 1))
+        return Outcome(int(ch[0]) == t.cwid(c["cp"], 0), True, ["cwid"],
+                       detail={"why": "U+%04X is laid out in %s cell(s), its class / placeholder says %d" % (c["cp"], ch[0], t.cwid(c["cp"], 0))})
     if c.get("kind") == "tables":
         return Outcome(False, True, ["tables"], detail={"why": "width table not sorted / overlapping", "entries": c["bad"]})
     return _rc(env, c)
